@@ -46,6 +46,8 @@ class Exec(ExprMixin, StmtMixin, LoopMixin, ModelMixin):
         self.modcache = {}
         self.cur_exc = []
         self.narrow = {}
+        self.flag_terms = set()
+        self.known_evs = [z3.Const("self", T.Ev)]
         self.pubstack = []
         self.abstract_objs = []
         self._generic = []
@@ -432,6 +434,11 @@ class Exec(ExprMixin, StmtMixin, LoopMixin, ModelMixin):
         else:
             t = self.fresh("obj_" + ci.name, T.Ev)
         o = Obj(ci, {}, t, is_exc=is_exc)
+        if not is_exc:
+            # a freshly allocated object is distinct from every object that existed before
+            for u in self.known_evs:
+                self.define(t != u)
+            self.known_evs.append(t)
         if is_exc:
             o.fields["args"] = PyTuple([a for a in args if not isinstance(a, tuple)])
             self._exc_facts(o, self.exc_ancestors_of(o))
@@ -672,23 +679,37 @@ class Exec(ExprMixin, StmtMixin, LoopMixin, ModelMixin):
             ot = self.as_opt(o)
         ok, val, exc = T.SPEC[name]
         self.event("call", name, c, ot)
+        if name == "evaluate" and str(c) in self.flag_terms:
+            self.assume(ok(c, ot))     # A-flags: reading a LABREA.* switch never fails
+            return Sym("val", val(c, ot))
         if self.fork(ok(c, ot)):
             if name == "evaluate":
                 return Sym("val", val(c, ot))
             if name == "validate":
                 return None
             return KSetV([("term", val(c, ot))])
+        if all(not c.eq(u) for u in self.known_evs):
+            self.known_evs.append(c)
         bound = "EvaluationError"
         iseffect = isinstance(recv, Sym) and recv.cls is not None and not self.repo.is_subclass(recv.cls, "Evaluatable")
         if iseffect:
             bound = "Exception"
         self.tags.append(("child-contract", name, str(c)))
+        if name == "evaluate":
+            self.assume(T.exc_src(exc(c, ot)) == c)     # the child's L6 (contract)
         self.do_raise(ExcSym(exc(c, ot), bound))
 
     def call_pyfunc(self, f: PyFunc, args, kwargs):
         node = f.node
         if self.depth > 40:
             raise Unsupported("call depth")
+        fc = self.config.get("fn_contracts", {}).get((f.module.name, f.name)) if f.env is None and f.owner is None else None
+        if fc is not None and not (self.config.get("verify_fn") == (f.module.name, f.name) and not any(g.node is node for g in self.stack)):
+            # modular call of a function under contract: the caller is checked against the contract, not the body
+            env = Env(f.module, None)
+            self.bind_params(f, node.args, args, kwargs, env)
+            self.tags.append(("fn-contract", f.name))
+            return fc(self, env.vars)
         env = Env(f.module, f.env)
         self.bind_params(f, node.args, args, kwargs, env)
         self.depth += 1
@@ -769,7 +790,10 @@ class Exec(ExprMixin, StmtMixin, LoopMixin, ModelMixin):
         owner, m = self.repo.find_method(ci, name)
         if m is None:
             raise Unsupported(f"{ci.name} has no {name}")
-        if self.pubstack and (ci.name in self.config.get("abstract_classes", ()) or any(c == ci.name and mm == name for c, mm in self.pubstack)):
+        limit = self.config.get("reentry_limit", {}).get(ci.name, 1)
+        ac = self.config.get("abstract_classes", ())
+        if self.pubstack and (ac == "*" or ci.name in ac
+                              or sum(1 for c, mm in self.pubstack if c == ci.name and mm == name) >= limit):
             return self.call(ModularMethod(self.abstract_temp(recv), name), args, {})
         self.pubstack.append((ci.name, name))
         try:
@@ -785,7 +809,7 @@ class Exec(ExprMixin, StmtMixin, LoopMixin, ModelMixin):
         vals = []
         for k in names:
             fv = obj.fields[k]
-            if isinstance(fv, Obj) and not fv.is_exc and fv.cls is not None and self.repo.is_subclass(fv.cls, "Evaluatable"):
+            if isinstance(fv, Obj) and not fv.is_exc and fv.cls is not None:
                 vals.append(T.val_of_ev(self.abstract_temp(fv).term))
             else:
                 vals.append(self.as_val(fv))
